@@ -291,7 +291,7 @@ class C18(core.Check):
                 path = r.choice(paths)
                 lst = core.get_path(model, path)
                 key = r.choice(SCALAR_KEYS)
-                present = [it[key] for it in lst if key in it and not isinstance(it[key], list)]
+                present = [it[key] for it in lst if key in it and not isinstance(it[key], (list, dict))]
                 pool = list(WORDS) + [0, 1, False, 0.0]
                 if present:
                     pool += present * 4
@@ -477,8 +477,7 @@ class C18(core.Check):
                 if name != "findunique":
                     value = op[3][1] if isinstance(op[3], list) else op[3]
                     if any(isinstance(it.get(lk), (list, dict)) for it in mlst):
-                        bump("skipped.nonscalar_values")
-                        continue
+                        bump("reach.items_holding_list_or_dict_under_the_key")  # equality still decides: never a match for a scalar
                 else:
                     if not all(isinstance(it[lk], str) for it in mlst if lk in it):
                         bump("skipped.unsortable_values")
